@@ -156,6 +156,52 @@ def run_case(case, ka, T=1.0):
         if res[0] == 'hang':
             vio.append(('terminates', res[1]))
         return vio, (res[0], len(sent))
+    if kind == 'pair':
+        # a second protocol object is active in the same process between the two pieces of this object's answer
+        what = case[4]
+        world.reset()
+        reqs = {}
+
+        def plan(k, req, now):
+            key = req[2:] if framing == 'tcp' else req
+            if key not in reqs:
+                reqs[key] = len(reqs)
+            F = frame(framing, count, req, fill=11 * reqs[key])
+            if reqs[key] == 0:
+                return [(D0, ('data', F[:p])), (.5 * T, ('data', F[p:]))]
+            if what == 'b-fragmented':
+                return [(D0, ('data', F[:p])), (.6 * T, ('data', F[p:]))]
+            return [(D0, ('data', F))]
+        peer = PlanPeer(plan)
+        loop = KLoop(peer)
+        tr = 'tcp' if framing == 'tcp' else 'udp'
+        pa, pb = make_protocol(tr, T, 1, ka), make_protocol(tr, T, 1, ka)
+        mk = (lambda pr, r: pr.read_command(r, count)) if framing != 'aa55' else (lambda pr, r: gp.Aa55ProtocolCommand("010600" if r == 100 else "010900", "0186" if r == 100 else "0189"))
+        import asyncio as _a
+
+        async def both():
+            async def second():
+                await _a.sleep(.2 * T)
+                return await _exec(mk(pb, 200), pb)
+            return await _a.gather(_exec(mk(pa, 100), pa), second())
+        st, res = loop.run(both())
+        if st == 'hang':
+            return [('terminates', str(res))], ('hang', 0)
+        ra, rb = res
+        na = sum(1 for t, fd, d, _ in peer.sent if (d[2:] if framing == 'tcp' else d) == (mk(pa, 100).request[2:] if framing == 'tcp' else mk(pa, 100).request))
+        Fa = None
+        for t, fd, d, _ in peer.sent:
+            key = d[2:] if framing == 'tcp' else d
+            if reqs.get(key) == 0:
+                Fa = frame(framing, count, d, fill=0)
+                break
+        if framing == 'aa55' and False:
+            pass
+        if not (ra[0] == 'ok' and ra[1] == Fa and na == 1):
+            vio.append(('reassembled-exactly', f'object A with a second object active: {ra[0]} transmissions={na}'))
+        if rb[0] != 'ok':
+            vio.append(('reassembled-exactly', f'second object: {rb[:2]}'))
+        return vio, (ra[0], na)
     if kind == 'cross':
         # a fragment left over from an EARLIER REQUEST (ended by an exception frame, a timeout or a late remainder)
         # must not be combined with data received for the next request on the same object
@@ -222,6 +268,12 @@ def cases_for(framing, tier):
                 for txB in ('frag2', 'rem-shaped', 'first-piece-only', 'full'):
                     for same in (True, False):
                         yield ('cross', framing, count, p, endA, txB, same)
+    for count in ([1, 3, 61, 125] if tier == 'thorough' else [3]):
+        L = len(frame(framing, count, b'\0\0'))
+        for p in (range(MINH[framing], L) if count <= 3 else [MINH[framing], L // 2, L - 1]):
+            for what in ('b-complete', 'b-fragmented'):
+                if framing != 'aa55':
+                    yield ('pair', framing, count, p, what)
     lcounts = [1, 2, 3, 61] if tier == 'thorough' else [1, 3]
     for count in lcounts:
         L = len(frame(framing, count, b'\0\0'))
